@@ -69,7 +69,7 @@ Definition gem_compare (na nb : list Z) (xs ys : list gem_elem) : Z :=
        | _, [] => -1
        | _, _ => match gem_loop xs ys with
                  | Some r => r
-                 | None => if Nat.ltb (length xs) (length ys) then -1 else 0
+                 | None => 0     (* every element, padding included, compared equal *)
                  end
        end.
 
